@@ -46,10 +46,9 @@ MANIFEST = dict(
        "the sweep (`SweepCorrect`) is open, the operator theorem is stated from it. "
        "HypervolumeContributionMD computes exp(sum(log(ref-p))): its results are compared after rounding to the nearest integer (tolerance 1e-6), everything else exactly. "
        "Theorems are about integer coordinates and lifted to rationals by the common-denominator argument (Lemmas/Scale.lean, Lemmas/RatLift.lean); the C++ runs on doubles, the "
-       "correspondence uses integer-valued doubles. The two absolute 1e-10 tolerances in upperEnvelope (regenerated inventory) are modelled as exact comparisons; this is sound exactly where two different "
-       "intersections / partial hypervolumes of the generated grids differ by more than 1e-10: offsets from the reference < 250 units, scale 2^e with 4^e > 1e-10, i.e. e >= -16 - "
-       "the ssp scale classes are restricted to -16 <= e <= 60 (dyadic q-classes /2..64 included). Below that regime (objective values of magnitude ~1e-5 and less) the unchanged code returns "
-       "sub-optimal subsets: OPEN finding C13-SSP-ABSTOL (F-C13-5, corpus/C13/f5_ssp_abstol.txt, findings_proposed/C13-SSP-ABSTOL.patch). Scale classes use powers of two only (other factors would "
+       "correspondence uses integer-valued doubles. The two 1e-10 tolerances in upperEnvelope (regenerated inventory) are modelled as exact comparisons. Since /repo de702950 they are RELATIVE to the compared values, so this is sound at every scale on the "
+       "generated grids (distinct intersections / partial hypervolumes differ relatively by far more than 1e-10) and the ssp scale classes run over the full range -60..60. Before that repair the tolerances were "
+       "absolute and the code returned sub-optimal subsets below 2^-16 (objective values ~1e-5): finding C13-SSP-ABSTOL (F-C13-5, corpus/C13/f5_ssp_abstol.txt), fixed; on a tree without the repair such inputs are reported under the key C13-SSP-ABSTOL. Scale classes use powers of two only (other factors would "
        "introduce rounding); hoys/dca/dcb are not scaled. translate/c13_tolerances.py (regex over comment-stripped source) is trusted. Finding C13-SSP-LEXLESS (F-C13-4: comparator `f2 < rhs.f1`, std::sort overflow with > 16 points "
        "of equal first coordinate) is fixed in /repo d62b7243. `stream` is tied and (as far as proved) specified on REACHABLE states only: objectives behind `split` are uncut; "
        "on other states the real stream and the model agree with each other but not with the definition (the median collected for an earlier split objective falls outside "
@@ -62,7 +61,7 @@ FINISH = dict(level="proof",
               rule="integer point sets from one SplitMix64 stream: dims 2..6, sizes 0..40 (quick) / ..300 (thorough), coordinates from small grids "
                    "(incl. negative values) with ties, duplicates, dominated and collinear points; sorts also on affine images with magnitudes up to 2^51 and at the "
                    "sizes 3^(m+1)-2..3^(m+1)+30 of the algorithm switch (one n > 5000 case in the thorough tier); subset selection up to 40 (120) points; "
-                   "reference points weakly above all points; scale classes 2^e, e in -60..60 (ssp: -16..60), as families of 18 classes on 6 (30) ops per kind and at random on 1/4 of the ops; translation classes +-2^k, k in {20,30,40,45}, on 1/6 of the dom/hv/con/ssp ops; "
+                   "reference points weakly above all points; scale classes 2^e, e in -60..60, as families of 18 classes on 6 (30) ops per kind and at random on 1/4 of the ops; translation classes +-2^k, k in {20,30,40,45}, on 1/6 of the dom/hv/con/ssp ops; "
                    "a case is non-trivial if it has >= 3 points and (for sort/hv) at least one tie or dominated pair; distinct = distinct op text")
 
 LAKE_TARGETS = ["SharkVerif.Props.C13", "SharkVerif.Props.C13Tol", "drv_c13"]   # Props imports Lemmas/{FastSort,Hypervolume,HV3D,Contrib,DCFront,Subset2D,RatLift,Contrib3DE,HOY}
@@ -138,7 +137,7 @@ SCALES = [-60, -52, -44, -34, -24, -16, -14, -12, -10, -4, -1, 1, 4, 10, 24, 34,
 # intersections (unit: objective) and on partial hypervolumes (unit: objective^2).  On integer grids with offsets from the
 # reference below 250 two different intersections differ by >= 2^e/250^2 and two different areas by >= 4^e, so the unchanged
 # code is exact iff 4^e > 1e-10, i.e. e >= -16; below that it returns sub-optimal subsets (finding C13-SSP-ABSTOL)
-SSP_MIN_SCALE = int(os.environ.get("VERIF_C13_SSP_MIN_SCALE", "-16"))   # development knob: -60 on a tree with the finding repaired
+SSP_MIN_SCALE = int(os.environ.get("VERIF_C13_SSP_MIN_SCALE", "-60"))   # -60 since the relative tolerance of /repo de702950 (was -16 with the absolute 1e-10: finding F-C13-5)
 
 
 def scales_for(kind):
